@@ -125,13 +125,19 @@ def step (st : St) (args : List String) : St × String :=
     | none => (st, "bad-op")
     | some blk =>
       let (s', v', ok) := processBlock (ctx st) st.store st.vol blk
-      -- spec: the notification succeeds exactly when the block is on the node's best chain
+      -- spec (MW.Lemmas.LedgerReorg3.processBlock_total): the notification succeeds exactly when the block is
+      -- on the node's best chain (the wallet then follows that chain up to the block) or – a stale or
+      -- duplicate notification – still on the chain the wallet has been told about (the wallet then goes
+      -- back to that block); otherwise it fails and changes nothing
       let onChain : Bool := match st.node.blockAt blk.height with | some x => x.id == blk.id | none => false
-      let specChain := if onChain then st.node.chain.take (blk.height + 1) else st.specChain
-      let specPend := if onChain then Spec.Pending.onChainMoved (specEnv st) st.specChain specChain st.specPend
+      let onSpec : Bool := match st.specChain[blk.height]? with | some x => x.id == blk.id | none => false
+      let specChain := if onChain then st.node.chain.take (blk.height + 1)
+                       else if onSpec then st.specChain.take (blk.height + 1) else st.specChain
+      let specPend := if onChain || onSpec then
+                        Spec.Pending.onChainMoved (specEnv st) st.specChain specChain st.specPend
                       else st.specPend
       ({ st with store := s', vol := v', specChain := specChain, specPend := specPend },
-        (if ok then "ok" else "err") ++ "\t" ++ (if onChain then "ok" else "err"))
+        (if ok then "ok" else "err") ++ "\t" ++ (if onChain || onSpec then "ok" else "err"))
   | ["recvtx", t] =>
     match AMap.get st.txs t with
     | none => (st, "bad-op")
